@@ -206,9 +206,23 @@ func genC13(r *RNG, tier string, run int) *Trace {
 	pg.wReadAt = 1
 	pg.nOps = 40
 	pg.plan = planOpts{chunk: true, faults: r.Chance(0.3)}
+	if r.Chance(0.3) {
+		// trickle feeding: Parse is called again and again with one to three
+		// unparsed bytes at the very end of the data (where hash values reach
+		// into the margin behind the data)
+		pg.trickle = 0.85
+		pg.wWrite, pg.wReadFrom = 6, 3
+	}
 	lowEntropy := []string{"iid1", "iid2", "iid3", "periodic", "runs", "zeroheavy", "copyback", "fib", "thue"}
 	t := genParserTrace(r, tier, ptOpts{types: parserTypes, pg: pg, families: lowEntropy,
 		tweak: func(r *RNG, p *ParserSpec) {
+			// short hash inputs for the double hash parsers in a third of the runs
+			if (p.Type == "DHP" || p.Type == "BDHP") && r.Chance(0.35) {
+				p.InputLen1 = r.Range(2, 3)
+				p.InputLen2 = r.Range(p.InputLen1+1, 5)
+				p.HashBits1, p.HashBits2 = r.Range(1, 4), r.Range(1, 4)
+				return
+			}
 			// tiny hash tables and long hash inputs so that stale entries are hit
 			if r.Chance(0.6) {
 				switch p.Type {
